@@ -205,7 +205,12 @@ def run(ctx):
                     if not ok and creates and isinstance(st.value, ast.Constant) and st.value.value in (0, None): ok = True        # obj._rbits_ = obj._wbits_ = 0
                 exc = GROW_EXC.get((fn.qual, form))
                 if not ok and exc:
-                    ctx.exception('C21-GROW', '%s %s' % (fn.qual, form), exc); ok = True
+                    # the exception holds for the INSERT case only: with after_create false the statement must be unreachable
+                    gx = cg.cfg(fn)
+                    node_ = [x for x in gx.nodes if x.kind == 'stmt' and x.ast is st]
+                    live_ = gx.reach([gx.entry], edge_ok=scenario_edges(gx, fn.node, lambda text, node: False if text == 'after_create' else None, resolve=False))
+                    if node_ and node_[0].id not in live_:
+                        ctx.exception('C21-GROW', '%s %s' % (fn.qual, form), exc); ok = True
                 ctx.ob('C21-GROW.read-marks-of-an-existing-object-only-grow', fn, st, ok,
                        '' if ok else '`%s` replaces or shrinks the read marks of an object the session may already have observed: a later refresh of an attribute read earlier '
                        'overwrites the observed value without UnrepeatableReadError' % norm(st)[:80], node=st, expected='obj._rbits_ |= ...')
@@ -232,6 +237,7 @@ def run(ctx):
 
 
 MUTANTS = [
+    dict(id='C21-grow3', file='pony/orm/core.py', fn='Entity._update_dbvals_', old="            elif after_create and val is None:", new="            elif val is None and (after_create or attr not in new_dbvals):", expect='C21-GROW'),
     dict(id='C21-pf', file='pony/orm/core.py', fn='Set.prefetch_load_all', old="                    if items and setdata2.is_fully_loaded and not attr.is_volatile: throw(UnrepeatableReadError,", new="                    if items and setdata2.is_fully_loaded and attr.is_volatile: throw(UnrepeatableReadError,", expect='C21-PHANTOM.appeared-item-detected-by-prefetch'),
     dict(id='C21-len', file='pony/orm/core.py', fn='SetInstance.__len__', old="        return len(wrapper.copy())  # the whole collection is observed: copy() records the read of every item",
          new="        attr = wrapper._attr_; obj = wrapper._obj_\n        setdata = obj._vals_.get(attr)\n        if setdata is None or not setdata.is_fully_loaded: setdata = attr.load(obj)\n        return len(setdata)", expect='C21-OBSERVE.full-load'),
